@@ -148,6 +148,10 @@ class ConditionalEffectsRemover(engines.engine.Engine, CompilerMixin):
         if new_kind.has_conditional_effects():
             new_kind.unset_effects_kind("CONDITIONAL_EFFECTS")
             new_kind.set_conditions_kind("NEGATIVE_CONDITIONS")
+            if new_kind.has_general_numeric_planning():
+                # a conditional numeric assignment that becomes unconditional
+                # can make the compiled problem a simple numeric one
+                new_kind.set_problem_type("SIMPLE_NUMERIC_PLANNING")
         return new_kind
 
     def _compile(
